@@ -131,6 +131,9 @@ class MarkerUnion(BaseMarker):
                 common_markers = [
                     marker for marker in self.markers if marker in shared_markers
                 ]
+                if unique_intersection.is_empty():
+                    # EmptyMarker | x returns x unchanged, so normalize the common part here
+                    return MarkerUnion.of(*common_markers)
                 return unique_intersection | MarkerUnion(*common_markers)
 
         return None
